@@ -66,6 +66,7 @@ type lfsServer struct {
 	answerLog        []string          // `transfer` of the answers to upload batches since the harness last cleared it ("-" = member left out)
 	offeredHist      map[string]string // oid -> answerLog, comma-joined, up to and including the answer that offered its upload action
 	availTus         bool
+	noAction         map[string]bool   // oid -> download batch entries for it carry neither actions nor an error
 	failOnce         map[string]int    // oid -> status with which the storage refuses the FIRST request for the object (401/403: the offered token is not valid yet, or no longer)
 	offeredAs        map[string]string // oid -> the transfer the latest batch response offering its upload action named
 }
@@ -295,7 +296,9 @@ func (s *lfsServer) handle(w http.ResponseWriter, r *http.Request) {
 					}
 				}
 			} else {
-				if have {
+				if have && s.noAction[o.Oid] {
+					// a server that answers a download with neither an action nor an error
+				} else if have {
 					ob.Actions = map[string]act{"download": {Href: s.srv.URL + "/storage/" + o.Oid, Header: s.actHeader("download", o.Oid)}}
 				} else {
 					ob.Error = &oerr{404, "object not found"}
